@@ -84,14 +84,14 @@ def work(job):
     or from cvc5/z3-4.8 when z3 api stays unknown."""
     name, smt2, timeout_ms, seed, expect_sat, second = job
     res = {'name': name, 'tried': []}
-    short = min(timeout_ms, 5000)
+    short = min(timeout_ms, 8000)
     r, dt, model, reason = _solve_z3(smt2, short, seed, True)
     ver = 'z3-%s' % z3.get_version_string()
     res['tried'].append((ver, r, round(dt, 3)))
     res.update(result=r, by='z3-api', time=dt, model=model, reason=reason)
     if r == 'unknown' and not expect_sat:
         sat_by = None
-        part = max(2000, timeout_ms // 4)
+        part = max(4000, timeout_ms // 2)
         steps = [('cvc5', lambda: _cvc5(smt2, part)),
                  (ver + '/arith.solver=2', lambda: _solve_z3(smt2, part, seed, True, {'arith.solver': 2})),
                  ('z3-4.8', lambda: _z3old(smt2, part)),
